@@ -57,7 +57,9 @@ pub fn run_extractor(rt: &tokio::runtime::Runtime, t: &Torrent) -> Result<Extrac
 
 pub fn check_geo(rt: &tokio::runtime::Runtime, dir: &Path, g: &Geo) -> Option<(&'static str, String)> {
     core::wipe_dir(dir);
-    let names: Vec<String> = (0..g.files.len()).map(|i| if i % 2 == 0 { format!("f{}", i) } else { format!("sub/f{}", i) }).collect();
+    // names: plain, in a subdirectory, and (third and fourth file) with runs of dots inside a
+    // component, which are ordinary names
+    let names: Vec<String> = (0..g.files.len()).map(|i| match i % 4 { 0 => format!("f{}", i), 1 => format!("sub/f{}", i), 2 => format!("v1..2/f{}..", i), _ => format!("..f{}", i) }).collect();
     let files: Vec<(&str, usize)> = names.iter().map(|n| n.as_str()).zip(g.files.iter().cloned()).collect();
     let t = Torrent::new("T", g.p, &files, g.single);
     let total = t.total();
